@@ -25,6 +25,25 @@ FIXTURES = os.path.join(VERIF, 'fixtures')
 _DUMP_SH = 'a=${1#--introspect-dump=}; cp "${a%%,*}" "$0.functions" && cp "$0" "${a#*,}"'
 
 
+class _InprocDump(object):
+    """Stands in for the `subprocess` module inside giscanner.gdumpparser: does in-process exactly what the
+    shell "introspection binary" below does (keep functions.txt, copy the prepared dump to the output path).
+    Spawning /bin/sh costs up to ~200 ms per case on this VM. VERIF_SPAWN=1 (or run(spawn=True)) uses the real
+    subprocess; C12 does so for part of its cases."""
+    import subprocess as _sp
+    CalledProcessError = _sp.CalledProcessError
+
+    @staticmethod
+    def check_call(args, stdout=None, stderr=None):
+        spec = args[-1]
+        if not spec.startswith('--introspect-dump=') or args[0] != '/bin/sh':
+            raise AssertionError('unexpected dump command %r' % (args,))
+        inp, outp = spec[len('--introspect-dump='):].split(',', 1)
+        shutil.copyfile(inp, args[-2] + '.functions')
+        shutil.copyfile(args[-2], outp)
+        return 0
+
+
 class Diag(object):
     __slots__ = ('level', 'text', 'positions', 'prefix', 'marker_pos', 'marker_line')
 
@@ -104,7 +123,7 @@ class Result(object):
 
 
 def run(case, scratch, cache=False, writer=True, passes=('main', 'introspectable'), warn_all=True,
-        sources_roots=('/src',)):
+        sources_roots=('/src',), spawn=None):
     """Run the pipeline. Exceptions other than SystemExit propagate (the caller decides
     whether a traceback is a violation)."""
     m = M()
@@ -146,6 +165,16 @@ def run(case, scratch, cache=False, writer=True, passes=('main', 'introspectable
             tr.parse(syms)
             if case.get('dump') is not None:
                 res.stage = 'dump'
+                import subprocess as _real_subprocess
+                gdp = sys.modules['giscanner.gdumpparser']
+                if spawn is None:
+                    spawn = bool(os.environ.get('VERIF_SPAWN'))
+                if spawn is not False and spawn is not True:
+                    spawn = bool(spawn)
+                if getattr(gdp, '_verif_keep_subprocess', False):
+                    pass            # the caller (C12) manages gdumpparser.subprocess itself
+                else:
+                    gdp.subprocess = _real_subprocess if spawn else _InprocDump
                 gd = m['GDumpParser'](tr)
                 gd.init_parse()
                 os.makedirs(scratch, exist_ok=True)
